@@ -158,7 +158,8 @@ Record wbuf := { wb_rev : list byte;      (* octets written so far, REVERSED *)
                  wb_ptrs : list (dname * N) }.
 
 Definition wb_empty : wbuf := {| wb_rev := []; wb_len := 0; wb_ptrs := [] |}.
-Definition wb_octets (b : wbuf) : list byte := rev (wb_rev b).
+(* = rev (wb_rev b) (lemma wb_octets_rev in Wire/WireModelFacts.v); rev_append is linear *)
+Definition wb_octets (b : wbuf) : list byte := rev_append (wb_rev b) [].
 
 Definition write_octets (os : list byte) (b : wbuf) : wbuf :=
   {| wb_rev := rev_append os (wb_rev b); wb_len := wb_len b + llen os; wb_ptrs := wb_ptrs b |}.
